@@ -6,6 +6,7 @@ package main
 
 import (
 	"fmt"
+	"github.com/prometheus/client_golang/prometheus"
 	"strings"
 	"time"
 
@@ -204,7 +205,15 @@ func measurementSuite() hlib.Suite {
 										end(t, ending)
 									}
 								}
+								// two runs on one metrics instance (the process-wide one is reused by every run of a process):
+								// the second run's figures are checked
+								reg := prometheus.NewRegistry()
+								rs.Metrics = metrics.NewInstance(reg, true, nil)
 								res := hlib.RunOnce(rs, -1, 0, 60*time.Second)
+								if res.BuildErr == nil && res.Out.Status == vrt.StOK {
+									ownTime = 0
+									res = hlib.RunOnce(rs, -1, 0, 60*time.Second)
+								}
 								if res.BuildErr != nil {
 									panic(res.BuildErr)
 								}
@@ -212,6 +221,7 @@ func measurementSuite() hlib.Suite {
 									r.Fail("C17/run-broken", mode, res.Out.Status.String()+res.Out.Crash, input)
 									continue
 								}
+								res.Reg = reg
 								label := "success"
 								if fails {
 									label = "fail"
